@@ -119,8 +119,7 @@ var c13DimNames = map[string][]string{
 	"signedPeerRecord": c13SrNames,
 	"publicKey":        c13PkNames,
 	"protocols":        {"absent", "few (incl. duplicate, empty string, identify push)"},
-	"agent+protocolVersion": {"absent", "present"},
-	"observedAddr":     {"absent", "valid with /p2p/O suffix", "unparsable"},
+	"agent+observedAddr": {"all absent", "agentVersion + protocolVersion + observed address with /p2p/O suffix"},
 	"protocols+agent+observedAddr": {"all absent", "few protocols (incl. duplicate, empty string, identify push) + agent data + unparsable observed address"},
 	"arrives_as":       {"identify response", "identify push"},
 	"connections_to_R": {"one (message on it)", "two (message on the second)"},
@@ -138,7 +137,7 @@ func c13MsgDims() []c13Dim {
 		{"R_known_before", c13Range(2)},
 	}
 	if vrep.Thorough() {
-		d = append(d, c13Dim{"protocols", c13Range(2)}, c13Dim{"agent+protocolVersion", c13Range(2)}, c13Dim{"observedAddr", []int{0, 1}},
+		d = append(d, c13Dim{"protocols", c13Range(2)}, c13Dim{"agent+observedAddr", c13Range(2)},
 			c13Dim{"connections_to_R", c13Range(2)}, c13Dim{"remote_key_type", c13Range(4)},
 			c13Dim{"peerstore", []int{c13PsDefault, c13PsTrusting}})
 	} else {
@@ -159,7 +158,10 @@ func c13MsgFields(cs map[string]int) c13Fields {
 			fl.OA = 2
 		}
 	} else {
-		fl.PR, fl.MV, fl.OA = cs["protocols"], cs["agent+protocolVersion"], cs["observedAddr"]
+		fl.PR, fl.MV = cs["protocols"], cs["agent+observedAddr"]
+		if fl.MV == 1 {
+			fl.OA = 1
+		}
 	}
 	return fl
 }
@@ -177,7 +179,7 @@ func (rp *c13Reporter) findings(fs []c13Finding, replay any) {
 
 // c13Baseline asserts that the honest exchange is recorded (otherwise every "nothing foreign was recorded"
 // verdict would be vacuous). A failure here is "no verdict", not a violation: the statement is one-directional.
-func c13Baseline(t *testing.T, w *c13World) {
+func c13Baseline(t *testing.T, w *c13World, r *vrep.Result) {
 	for rt := range w.R {
 		for _, cfg := range []int{c13PsDefault, c13PsTrusting} {
 			var msg string
@@ -199,7 +201,10 @@ func c13Baseline(t *testing.T, w *c13World) {
 				f.drain()
 				after := c13TakeSnap(f.ps, also)
 				if fs := c13Audit(w, before, after, ex, f.evs); len(fs) > 0 {
-					msg = fmt.Sprintf("honest message audited with findings: %v", fs)
+					// the audit's findings are verdicts also on the honest message
+					for _, fd := range fs {
+						r.Violate(fd.Key, fd.Desc, map[string]any{"part": "message-product", "case": "baseline: honest message", "remote_key_type": c13DimNames["remote_key_type"][rt], "peerstore": c13PsNames[cfg]})
+					}
 					return
 				}
 				a := after[R.ID]
@@ -247,7 +252,7 @@ func TestVerifC13Msg(t *testing.T) {
 	w := c13GetWorld(t)
 	r := vrep.New("C13", "message-product")
 	defer r.Flush()
-	c13Baseline(t, w)
+	c13Baseline(t, w, r)
 	dims := c13MsgDims()
 	c13DimBounds(r, dims, c13DimNames)
 	n := c13Size(dims)
@@ -340,8 +345,6 @@ func c13CapsDims() []c13Dim {
 	d := []c13Dim{
 		{"listenAddrs", c13Range(3)},
 		{"signedPeerRecord", c13Range(3)},
-		{"agent+protocolVersion", c13Range(2)},
-		{"conn_remote_addr", []int{c13RcLoop, c13RcPub4}},
 		{"arrives_as", c13Range(2)},
 		{"peerstore", []int{c13PsDefault, c13PsLarge}},
 		{"R_known_before", c13Range(2)},
@@ -349,9 +352,9 @@ func c13CapsDims() []c13Dim {
 		{"consumed", c13Range(2)},
 	}
 	if vrep.Thorough() {
-		d = append(d, c13Dim{"protocols", c13Range(3)})
+		d = append(d, c13Dim{"protocols", c13Range(3)}, c13Dim{"agent+protocolVersion", c13Range(2)}, c13Dim{"conn_remote_addr", []int{c13RcLoop, c13RcPub4}})
 	} else {
-		d = append(d, c13Dim{"protocols", c13Range(2)})
+		d = append(d, c13Dim{"protocols", c13Range(2)}, c13Dim{"agent+protocolVersion", []int{1}}, c13Dim{"conn_remote_addr", []int{c13RcPub4}})
 	}
 	return d
 }
